@@ -13,7 +13,7 @@ from __future__ import annotations
 import harness
 import ratfun
 from ratfun import Rat, Poly
-from facts import Facts, callee_key, norm
+from facts import Facts, callee_key, norm, region_of
 from flow import resolve, resolve_place, resolve_rvalue, leaves, show, walk
 from cfgq import calls_to, aggregates, bool_edges, call_result_edges, arg_expr
 
@@ -147,7 +147,7 @@ def run(chk: harness.Check):
         "FractionLookupTable::lookup(.., max_den); Regular is returned only under the fract() < 1e-10 test; (D3) FractionsConfigHelper::define clamps accuracy to "
         "[0,1] and max_denominator to [1,16]; (D4) the format templates of <Number as Display>::fmt over the Fraction fields, decoded from MIR, are `{whole}`, "
         "`{num}/{den}` or `{whole} {num}/{den}`, and a component is omitted only on the zero arm of a switch on it; (D5) the lookup table enumerates "
-        "numerators over 1..den and keys entries by num/den. Shape and dominance only: no value is computed.")
+        "numerators over 1..den and keys entries by num/den; (D6) Number::try_approx approximates self.value(), and any function computing a fraction's num/den in floating point also reads its err. Shape and dominance only: no value is computed.")
     chk.trusted = ["rustc MIR; f64 arithmetic treated as exact rational arithmetic for the identity (rounding error is not modelled)",
                    "u32/u8 <-> f64 casts treated as identity"]
     f = F.funcs.get(NA)
@@ -282,6 +282,7 @@ def run(chk: harness.Check):
                    sample=f"{lk.file}:{lk.line}: {n} comparisons against max_den")
     d4_display(chk, F)
     d5_table(chk, F)
+    d6_err_carried(chk, F)
     # ---- D3 -----------------------------------------------------------------------------------
     df = F.funcs.get("cooklang::convert::units_file::FractionsConfigHelper::define")
     if df is None:
@@ -296,6 +297,71 @@ def run(chk: harness.Check):
                    f"accuracy is not clamped to [0, 1] before it reaches new_approx's assertion: {full(acc)[:80]}", sample="accuracy.clamp(0.0, 1.0)")
         chk.expect(okd, "C12.D3-clamp", "define|max_denominator", f"{ff.file}:{s.get('line')}",
                    f"max_denominator is not clamped to [1, 16] (new_approx asserts <= 64): {full(den)[:80]}", sample="max_denominator.clamp(1, 16)")
+
+
+def d6_err_carried(chk, F):
+    """'whose exact value (fraction plus recorded error) equals the input': the exact value of a Number is Number::value().
+    (a) Number::try_approx approximates `self.value()`, not a value rebuilt from the fraction components; (b) any library function
+    that computes `num / den` of a Number::Fraction in floating point also reads its `err` (today only Number::value does)."""
+    R = "C12.D6-err-carried"
+
+    def fraction_fields(e):
+        return {p for x in walk(e) if x[0] == "place" and any(isinstance(q, str) and q == "as Fraction" for q in x[2]) for p in x[2] if isinstance(p, str) and p.startswith(".")}
+    ta = [g for g in F.find("quantity::Number::try_approx") if not g.is_closure()]
+    if len(ta) != 1:
+        chk.fail("anchor-missing", "Number::try_approx", "", "anchor-missing: Number::try_approx not found")
+        return
+    g = ta[0]
+    n = 0
+    for rf in F.region_funcs(g.key):
+        for b, t in rf.calls():
+            if (callee_key(t) or "").endswith("quantity::Number::new_approx"):
+                n += 1
+                e = resolve(rf, t["args"][0])
+                ok = e[0] == "call" and e[1].endswith("quantity::Number::value") and any(l.startswith(("param:self", "upvar:self")) for l in leaves(e))
+                # value() written out in place is the same input as long as all four components are in it
+                ok = ok or {".whole", ".num", ".den", ".err"} <= fraction_fields(e)
+                chk.expect(ok, R, "try_approx|input", rf.where(b),
+                           f"try_approx approximates {show(e, -60)[:120]} instead of self.value(): the recorded error of a fraction that is approximated again "
+                           "is dropped and the result misstates the value", sample=f"{rf.where(b)}: new_approx(self.value(), ..)")
+    chk.floor(R, "new_approx calls in try_approx", n, 1, f"{g.file}:{g.line}")
+
+    m = 0
+    for k in sorted(F.funcs):
+        h = F.funcs[k]
+        if h.crate not in ("cooklang", "cooklang_bindings") or h.generated:
+            continue
+        divs = []
+        for i, j, st in h.iter_stmts():
+            rv = st.get("rv", {})
+            if st["k"] == "assign" and rv.get("k") == "bin" and rv.get("op") == "Div" and rv.get("lty") in ("f64", "f32"):
+                if ".num" in fraction_fields(resolve(h, rv["l"])) and ".den" in fraction_fields(resolve(h, rv["r"])):
+                    divs.append(st)
+        if not divs:
+            continue
+        m += 1
+        reads_err = any(".err" in p.get("p", []) and "as Fraction" in p.get("p", []) for i, j, st in h.iter_stmts() if st["k"] == "assign"
+                        for p in _operand_places(st))
+        chk.expect(reads_err, R, f"{region_of(k)}|num/den", f"{h.file}:{divs[0].get('line')}",
+                   f"{k.rsplit('::', 2)[-2]}::{k.rsplit('::', 1)[-1]} computes a fraction's num / den as a float without reading its recorded `err`: the exact value of a "
+                   "Number::Fraction is whole + err + num/den", sample=f"{h.file}:{divs[0].get('line')}: num/den together with err")
+    chk.floor(R, "functions computing num/den in floating point", m, 1)
+
+
+def _operand_places(st):
+    rv = st.get("rv", {})
+    for key in ("op", "l", "r", "x"):
+        o = rv.get(key)
+        if isinstance(o, dict):
+            p = o.get("copy") or o.get("move")
+            if p:
+                yield p
+    if isinstance(rv.get("place"), dict):
+        yield rv["place"]
+    for o in rv.get("ops", []) or []:
+        p = o.get("copy") or o.get("move")
+        if p:
+            yield p
 
 
 def d4_display(chk, F):
